@@ -87,6 +87,13 @@ func extractInternalized(repo string) (string, error) {
 			}
 			m := se.Sel.Name
 			switch {
+			case m == "resetVisited":
+				// `doc.resetVisited()`: every call starts with empty visited sets (model: initSt / rerunSt)
+				if len(ce.Args) != 0 {
+					rows = append(rows, fmt.Sprintf("IRow.unrecognised %q", fset.Position(ce.Pos()).String()))
+				} else {
+					rows = append(rows, fmt.Sprintf("IRow.call %s %s %s %s", q(name), q(m), q(""), q("")))
+				}
 			case strings.HasPrefix(m, "isVisited"):
 				if len(ce.Args) != 1 {
 					rows = append(rows, fmt.Sprintf("IRow.unrecognised %q", fset.Position(ce.Pos()).String()))
